@@ -499,8 +499,17 @@ func vfC26ShapeSpace(t *testing.T) {
 }
 
 func vfC26Rate(t *testing.T) {
-	maxLen := venum.QT(5, 6)
-	callers := []string{"listed", "listed-2", "authenticated-not-listed"}
+	// one request = (caller, what the resolver will answer if it is reached). The resolver
+	// answer only matters for the two allow-listed callers, so the alphabet has 2*4+1 letters.
+	maxLen := venum.QT(4, 5)
+	type letter struct{ caller, outcome string }
+	var alphabet []letter
+	for _, c := range []string{"listed", "listed-2"} {
+		for _, o := range []string{"ok", "unresolved", "error", "unavailable"} {
+			alphabet = append(alphabet, letter{c, o})
+		}
+	}
+	alphabet = append(alphabet, letter{"authenticated-not-listed", "ok"})
 	venum.Explore(t, venum.Cfg{Name: "rate", Shardable: true}, func(x *venum.X) {
 		limit := 1 + x.Choose(2, "limit")
 		vfC26Logs.reset()
@@ -511,11 +520,12 @@ func vfC26Rate(t *testing.T) {
 		admitted := map[string]int{}
 		var trace []string
 		for i := 0; i < maxLen; i++ {
-			k := x.Choose(len(callers)+1, "request")
+			k := x.Choose(len(alphabet)+1, "request")
 			if k == 0 {
 				break
 			}
-			ck := callers[k-1]
+			ck := alphabet[k-1].caller
+			s.res.outcome = alphabet[k-1].outcome
 			before := len(s.res.calls)
 			cred := fmt.Sprintf("vfSECRETburst-%d", i)
 			body := vfC26TokenBody(cred)
@@ -527,7 +537,7 @@ func vfC26Rate(t *testing.T) {
 			if ran > 0 {
 				admitted[ck] += ran
 			}
-			trace = append(trace, fmt.Sprintf("%s:%d", ck, resp.status))
+			trace = append(trace, fmt.Sprintf("%s/%s:%d", ck, alphabet[k-1].outcome, resp.status))
 			if admitted[ck] > limit {
 				x.Failf("C26:rate:over-limit:limit="+fmt.Sprint(limit), "caller %s had %d introspections reach the resolver inside one window, limit %d; trace %v", ck, admitted[ck], limit, trace)
 			}
@@ -547,7 +557,7 @@ func vfC26Rate(t *testing.T) {
 	venum.Explore(t, venum.Cfg{Name: "rate-default", MinOutcomes: 1}, func(x *venum.X) {
 		n := 20 + x.Choose(3, "extra")
 		vfC26Logs.reset()
-		s := vfC26NewServer("enabled", "listed", "ok", 0)
+		s := vfC26NewServer("enabled", "listed", x.Pick("resolver", "ok", "unresolved", "error", "unavailable"), 0)
 		for i := 0; i < n; i++ {
 			body := vfC26TokenBody(fmt.Sprintf("vfSECRETdefault-%d", i))
 			if _, ok := s.post(x, "listed", body, int64(len(body))); !ok {
@@ -557,7 +567,7 @@ func vfC26Rate(t *testing.T) {
 		if len(s.res.calls) > 20 {
 			x.Failf("C26:rate:over-default-limit", "%d of %d same-window introspections reached the resolver; documented default limit is 20", len(s.res.calls), n)
 		}
-		x.Outcome("burst=%d admitted=%d", n, len(s.res.calls))
+		x.Outcome("burst=%d resolver=%s admitted=%d", n, s.res.outcome, len(s.res.calls))
 	})
 }
 
